@@ -6,6 +6,7 @@ compare(defs) -> list of result dicts, one per definition:
    'model', 'impl', 'verdict': 'ok'|'parse-err'|'validate-err'|..., 'branches': set(...)}
 """
 import os
+import zlib
 import subprocess
 import sys
 
@@ -311,7 +312,7 @@ def compare(cases, work):
     impl_items, model_items = [], []
     for c in cases:
         if 'text' not in c:
-            c['text'] = D.to_text(c['def'], random.Random(hash(c['id']) & 0xffffffff))
+            c['text'] = D.to_text(c['def'], random.Random(zlib.crc32(c['id'].encode())))
         impl_items.append((c['id'], c['feature'], c['text']))
         model_items.append((c['id'], c['feature'], D.to_prefix(c['def'])))
     impl = run_impl(impl_items, work)
@@ -325,6 +326,36 @@ def compare(cases, work):
                  model_verdict=verdict_of(m), err=err_of(i), regions=regions_of(m), ntokens=ntokens_of(i))
         results.append(r)
     return results
+
+def name_corpus():
+    """every identifier of length <= 7 over {a, B, 2, _} and of length <= 5 over {a, b, A, B, 1, _} (not
+    starting with a digit, not `_` alone), plus the word pools"""
+    import itertools
+    out = []
+    for alpha, n in (('aB2_', 7), ('abAB1_', 5)):
+        for k in range(1, n + 1):
+            for t in itertools.product(alpha, repeat=k):
+                w = ''.join(t)
+                if w[0].isdigit() or set(w) == {'_'}:
+                    continue
+                out.append(w)
+    out += D.STATE_WORDS + D.SUPER_WORDS + D.EVENT_WORDS + D.HOOK_WORDS
+    return sorted(set(out))
+
+def compare_names(work):
+    """to_snake_case / to_pascal_case of the real utils.rs against the model's, on name_corpus()"""
+    names = name_corpus()
+    inp_i = ''.join(f'#NAME {n}\n' for n in names)
+    inp_m = ''.join(f'NAME {n}\n' for n in names)
+    ri = subprocess.run([os.path.join(work, 'smx-nofeat', 'release', 'smx')], input=inp_i, capture_output=True, text=True)
+    rm = subprocess.run([DRIVER], input=inp_m, capture_output=True, text=True)
+    li = [l for l in ri.stdout.split('\n') if l.startswith('#NAME ')]
+    lm = [l for l in rm.stdout.split('\n') if l.startswith('#NAME ')]
+    diffs = [{'impl': a, 'model': b} for a, b in zip(li, lm) if a != b]
+    if len(li) != len(names) or len(lm) != len(names):
+        diffs.append({'impl': f'{len(li)} lines', 'model': f'{len(lm)} lines', 'expected': len(names)})
+    diffs.sort(key=lambda d: len(d['impl']))
+    return {'names': len(names), 'ndiffs': len(diffs), 'diffs': diffs[:20]}
 
 def repo_corpus(repo='/repo'):
     out = []
